@@ -3,14 +3,23 @@
 Tie: for random fluent programs every node of every resulting graph is re-named by the model
 (Model/Names.lean renders `fname + repr(args) + repr(kwargs) + repr([input names])`, Python applies
 sha256) bottom-up and compared with the real `Node.name`; `from_source` labels likewise.
-`Action.transform` with a func that hands back an existing action (or the receiver) is replayed on the
-heap model (`Names.transformH`): the node array of the result and of every action that existed before
-are compared with the real ones, node object by node object.
-Oracle: (a) building the same program twice gives the same names — twice in this process AND twice in
-a fresh interpreter (state surviving between builds may be saturated here); (b) in the union of all
-actions of a program (shared sources) two nodes with the same name have the same callable (identity),
-statics and inputs bound to the same parameters; (c) dims / coords / node identities of EVERY live
-action (not only the operands) are snapshotted before and after each operation and must not change.
+The statements whose code path writes to `Action.nodes` in place or hands back an existing object —
+`transform` with a func that hands back an existing action (or the receiver), stack/concatenate on a
+dimension of size 1, select/iselect without criteria — are replayed on the heap model (`Names.transformH`,
+`combineH`, `selectH`): the node array of the result, WHICH object the result is, and the node array of every
+action object that existed before are compared with the real ones, node object by node object.
+Oracle (from the property text, independent of the model):
+ (a) building the same program twice gives the same names — twice in this process AND twice in a fresh
+     interpreter with another string-hash seed (state surviving between builds may be saturated here);
+ (b) among all nodes of all actions of a program (shared sources) two nodes with the same name have the same
+     callable (identity), the same statics (by value), the same inputs bound to the same parameters and the same outputs;
+ (c) the union on the REAL path: Cascade.from_actions / + / += (deduplicate_nodes), serialise, graph2job — names unique in
+     the union, exactly one node per distinct computation, two builds of one program unite to one, the union serialises
+     and lowers to exactly its nodes, no union changes an earlier union or node objects of existing actions, a new
+     Cascade() is empty;
+ (d) dims / coords / node identities of EVERY live action (not only the operands) and what every node object of
+     every live action holds (name, payload, inputs by object, outputs) are snapshotted around each operation
+     and must not change.
 """
 import glob
 import hashlib
@@ -22,22 +31,32 @@ for _v in ("OMP_NUM_THREADS", "OPENBLAS_NUM_THREADS", "MKL_NUM_THREADS"):
     os.environ.setdefault(_v, "1")   # before NumPy is first imported: node arrays are object arrays, BLAS thread pools only cost time
 
 PROPERTY = "C14"
-LEVEL_TEXT = ("Lean theorems over Model/Names.lean: a node name is a function of (callable __name__, statics, input names) only; for an "
+LEVEL_TEXT = ("Lean theorems over Model/Names.lean. Names: a node name is a function of (callable __name__, statics, input names) only; for an "
               "injective hash, uniquely decodable statics, callables distinguished by __name__ and plain input names, equal names imply equal "
               "(callable, statics, inputs) — the rendering of the input-name list is proved injective, not assumed, so the same inputs in a "
-              "different order give a different name; the statement without the __name__ hypothesis is refuted by a witness. Existing "
-              "actions: Action.transform is modelled on a heap of action objects with its in-place writes (_add_dimension, "
-              "_squeeze_dimension); for every func (new action, the receiver, any previously built action), every heap and every history "
-              "of operations no existing action object changes, the heap model agrees with the value model of C13, and re-wrapping func's "
-              "result only when it is the receiver is refuted by a witness. Tied to the real fluent API by re-deriving every real node name "
-              "from the model's rendering, by replaying look-up transforms on the heap model, and by snapshots of all existing actions.")
+              "different order give a different name; by induction over the depth of the graph (source nodes and '<parent>.<output>' input "
+              "names included, which are proved never to collide with node names) equal names imply the same computation all the way "
+              "down. What the name does not cover is refuted by witnesses: callables of equal __name__, the number of outputs, statics "
+              "with a lossy repr. Unions: de-duplication keeps every computation exactly once and is idempotent over two builds; where "
+              "names identify computations the names of the union are pairwise different and lowering by name finds the computation. "
+              "Existing actions: Action.transform, stack/concatenate and select are modelled on a heap of action objects with their in-place "
+              "writes (_add_dimension, _squeeze_dimension) and their hand-backs of existing objects; for every func (new action, the "
+              "receiver, any previously built action), every heap and every history of operations no existing action object changes, only "
+              "the documented operations hand back an existing object, the heap model agrees with the value model of C13, and re-wrapping "
+              "func's result only when it is the receiver is refuted by a witness. Tied to the real fluent API by re-deriving every real "
+              "node name from the model's rendering, by replaying the in-place / hand-back statements on the heap model, and by the oracles.")
 LEVEL_NOTE = ("modelled, not verified: fluent.py Payload.__str__/name, Node.__init__ naming, from_source label uniqueness, Action.join/"
-              "broadcast/_combine_nodes as store operations, Action.transform/_add_dimension/_squeeze_dimension as heap operations; sha256 "
-              "is applied by the harness to the model's rendering (collision freedom is the hypothesis `Function.Injective H`); Python repr "
-              "is modelled for int/str/float/bool/None/list/tuple/dict only; unique decodability of the statics' repr is a hypothesis; "
-              "Python object identity is observed by the snapshots and, for transforms that hand back existing actions, by node-object ids "
-              "compared with the heap model; the func passed to transform is one of three kinds (TFunc)")
-TECHNIQUE = "Lean 4 proof (string decomposition lemmas on List Char; write-set invariant of a heap model) + differential correspondence of node names and of heaps around look-up transforms + identity/coordinate snapshots of every existing action around every operation + rebuilds in fresh interpreters"
+              "broadcast/reduce as store operations, Action.transform/_combine_nodes/select with _add_dimension/_squeeze_dimension as heap "
+              "operations (the in-place squeeze inside the batching loop of reduce is modelled at value level only), deduplicate_nodes as "
+              "first-occurrence de-duplication of equal computations; sha256 is applied by the harness to the model's rendering (collision "
+              "freedom and hex digests are the hypotheses `Function.Injective H`, `Clean (H s)`); Python repr is modelled for int/str/"
+              "float/bool/None/list/tuple/dict only (nodes with other statics are judged by the oracle only); unique decodability of the "
+              "statics' repr is a hypothesis and FAILS for lossy reprs (known findings); Python object identity is observed by the snapshots "
+              "and by node-object ids compared with the heap model; the func passed to transform is one of three kinds (TFunc); the real "
+              "union path (Cascade, deduplicate_nodes, serialise, graph2job) is covered by the oracle, its model is the list-level dedupNodes")
+TECHNIQUE = ("Lean 4 proof (string decomposition lemmas on List Char; mutual induction over computation terms; write-set invariant of a heap model) "
+             "+ differential correspondence of node names and of heaps around in-place / hand-back statements + snapshots of every existing action "
+             "and node object around every operation + the real Cascade union / serialise / graph2job path + rebuilds in fresh interpreters")
 LEAN_PROPS = ["EkwVerif.Props.C14"]
 LEAN_DRIVERS = ["C14"]
 RULE = ("random fluent programs as in C13 (shared sources, branches) extended with pairs of different callables of equal __name__ "
@@ -45,19 +64,18 @@ RULE = ("random fluent programs as in C13 (shared sources, branches) extended wi
         "statics, binary operations between actions whose coordinate values differ (match_coord_values), non-commutative binary "
         "operations with swapped operands (a-b and b-a, a/b and b/a), order-sensitive reductions over the same nodes joined / selected "
         "in a different order, stack/concatenate on size-1 dimensions, transform with an identity function and with functions that "
-        "look up previously built actions (other than the receiver, lacking the join dimension; one or several parameters). Every "
-        "program is built twice in the check process; the witnesses and a sample (40 quick / 600 thorough) are also built twice in "
-        "fresh interpreters (pristine module state, different string-hash seed). "
-        "non-trivial = program with >= 2 non-source statements; distinct by content hash")
+        "look up previously built actions (other than the receiver, lacking the join dimension; one or several parameters), the same "
+        "callable with one and with several outputs (yields), statics of other types (nested lists, dict/list-valued keyword arguments, "
+        "2000-element arrays differing at one index, objects with the default repr: one per process / one per build), select/iselect "
+        "without criteria followed by operations on the object handed back. Every program is built three times in the check process "
+        "(names, unions); the witnesses and a sample (40 quick / 600 thorough) are also built twice in fresh interpreters (pristine module "
+        "state, different string-hash seed). non-trivial = program with >= 2 non-source statements; distinct by content hash")
 ASSUMPTIONS = [
-    "sha256 is collision free on the rendered strings (hypothesis `Function.Injective H` of c14_injective_partial)",
+    "sha256 is collision free on the rendered strings and its digests are hex strings (hypotheses `Function.Injective H`, `Clean (H s)`)",
     "callable identity is Python object identity (`is`) of the payload function",
-    "statics are ints, floats, strings, bools, None, lists, tuples (the types the generator and the fluent API itself produce)",
+    "the correspondence of names covers statics that are ints, floats, strings, bools, None, lists, tuples, string-keyed dicts; other statics (arrays, objects) are judged by the oracle only",
     "the func given to transform is one of: builds a new action from the receiver, returns the receiver, returns an action built before (TFunc)",
 ]
-
-KNOWN_COLLISION = {"kind": "name-collision", "cause": "equal-__name__"}
-
 
 # ----------------------------------------------------------------------------- program generation
 
@@ -180,6 +198,13 @@ def _more_extras(g, rng, k, dims):
                            ({"config": 1}, {"config": 2}), ({"config": 1}, {"config": 1}), ({"newconfig": 1}, {"int": 1})])
         g.push({"op": "map", "a": k, "fn": "keep", "static": a})
         g.push({"op": "map", "a": k, "fn": "keep", "static": b})
+    elif r < 0.80 and dims:
+        # ONE Payload object passed to a map and then to a reduce (which needs more input names in its argument list)
+        d = rng.choice(dims)[0]
+        n = rng.randint(1, 9)
+        g.push({"op": "map", "a": k, "fn": "first", "share": n})
+        g.push({"op": "reduce", "a": k, "fn": "first", "dim": d, "bs": 0, "keep": False, "share": n})
+        g.push({"op": "map", "a": k, "fn": "first", "share": n})
     else:
         x = g.push({"op": "alias", "a": k, "how": rng.choice(["select", "iselect"])})
         if _ok(g, x):
@@ -806,6 +831,9 @@ def _witnesses():
         {"stmts": [S, {"op": "map", "a": 0, "fn": "keep", "static": {"kwdict": {"a": 1}}}, {"op": "map", "a": 0, "fn": "keep", "static": {"kwdict": {"a": 2}}},
                    {"op": "map", "a": 0, "fn": "keep", "static": {"nested": [[1, 2], 3]}}, {"op": "map", "a": 0, "fn": "keep", "static": {"nested": [[1], 2, 3]}}],
          "internal": [], "vseed": 0, "float": False},
+        # one Payload object passed to several operations
+        {"stmts": [S, {"op": "map", "a": 0, "fn": "first", "share": 1}, {"op": "reduce", "a": 0, "fn": "first", "dim": "d0", "bs": 0, "keep": False, "share": 1}],
+         "internal": [], "vseed": 0, "float": False},
         # operations that hand back the action itself, then an in-place candidate on the alias
         {"stmts": [S, {"op": "alias", "a": 0, "how": "select"}, {"op": "transform", "a": 1, "func": "ident", "params": [0], "dim": "t", "axis": 0}], "internal": [], "vseed": 0, "float": False},
     ]
@@ -942,6 +970,7 @@ def correspond(ctx):
         ctx.count(key, v)
     for prog, where, case, model, impl in bad:
         ctx.disagree(where, {"stmts": prog["stmts"][:10], **case}, model, impl)
+    _observe_criteria_dict(ctx)
     # (a') the builds of the fresh interpreters
     env_of = {id(p): e for p, e in zip(progs, envs)}
     for sl, h in zip(slices, handles):
@@ -972,6 +1001,22 @@ def correspond(ctx):
             reported.add(key)
             small = _shrink(p, [k], sig, failing=lambda q: _fresh_differs(q) is not None)
             ctx.violation(sig, {"prog": small, "fresh": True}, text)
+
+
+def _observe_criteria_dict(ctx):
+    """not part of the property (a criteria dict is not an action): `select` empties the dict its caller passed when the
+    criterion names a scalar coordinate (`crit = criteria or {}` … `criteria.pop(key)`); recorded as an observation"""
+    try:
+        from ekw import c13_fluent as F
+        a = F.exec_stmt({"op": "source", "dims": [["d0", [0, 10]]], "base": 0}, [])
+        s1 = a.select({"d0": 0})
+        crit = {"d0": 0}
+        s1.select(crit)
+        if crit != {"d0": 0}:
+            ctx.count("observed:select_mutates_the_callers_criteria_dict")
+            ctx.notes.append("observation (outside the property text): Action.select removes the matched scalar-coordinate keys from the criteria dict its caller passed")
+    except Exception as e:
+        ctx.notes.append(f"criteria-dict observation failed: {type(e).__name__}")
 
 
 def _count_features(ctx, p, env):
@@ -1060,6 +1105,14 @@ def replay(payload):
         v = _fresh_differs(prog, X.names_of_env(env), env)
         if v:
             bad.append(({"kind": "not-deterministic", "what": "names", **({"cause": "address-in-repr"} if v[2] else {})}, v[1]))
+    # the replay reproduces THE failure it records; other oracle reports on the same input (known findings) are shown only
+    from ekw.core import load_known, match_known
+    known = load_known()
+    want = payload.get("signature")
+    hits = 0
     for sig, text in bad:
-        print("oracle:", sig, text)
-    return 1 if bad else 0
+        k = match_known(PROPERTY, sig, known)
+        same = (sig == want) if want else (k is None)
+        hits += 1 if same else 0
+        print("oracle:" if same else ("oracle (known finding %s):" % k["id"] if k else "oracle (other):"), sig, text)
+    return 1 if hits else 0
